@@ -828,6 +828,17 @@ func (m *MonC06) OnEnd(w *World) []Violation {
 				for k := range b.answers {
 					a := &b.answers[k]
 					if a.CID == c.CID && a.Name == name && a.Query == q && a.ReqT < tr.T && a.T > tr.T {
+						if m.queueAt[w.stepOfT(tr.T)-1][c.CID+"|"+fullRID]&2 != 0 {
+							// the subscription was already waiting for the verdict of an earlier
+							// re-check when the trigger came: that request cannot serve this
+							// trigger (for a token event it carries the old token); the new
+							// re-check is deferred until its answer and follows it
+							m.class("trigger_during_pending_recheck")
+							if a.T > from {
+								from = a.T
+							}
+							continue
+						}
 						if b.effT(name, a.T) != a.T {
 							// the answer waited behind a query-event lock and is processed at
 							// the unlock together with whatever else waited there (the get
